@@ -297,9 +297,9 @@ func (e *endpoint) pause(d time.Duration) {
 // left to read, everything it was going to do for the messages written so far has been done.
 func (e *endpoint) waitParked(d time.Duration) bool {
 	h := e.in
-	t := time.AfterFunc(d, func() { h.mu.Lock(); h.cond.Broadcast(); h.mu.Unlock() })
+	end := time.Now().Add(d) // before the timer is armed: the wake-up must find the end passed
+	t := time.AfterFunc(d+time.Millisecond, func() { h.mu.Lock(); h.cond.Broadcast(); h.mu.Unlock() })
 	defer t.Stop()
-	end := time.Now().Add(d)
 	h.mu.Lock()
 	defer h.mu.Unlock()
 	for !(h.waiting && len(h.buf) == 0) {
